@@ -119,6 +119,15 @@ func VerifC14_CompareLists() {
 	eq := a.Compare(b) // REAL code
 	if !eq {
 		verifReach("different")
+		// the other direction (an unchanged process keeps its instance): configurations that are
+		// the same are not reported as different
+		if na == nb {
+			same := true
+			for k := range la {
+				same = verifAnd(same, la[k] == lb[k])
+			}
+			verifAssert("identical.configurations.reported.different", !same)
+		}
 		return
 	}
 	verifReach("equal")
